@@ -80,8 +80,10 @@ pub fn field_verdict(l: &Layout, f: &Field) -> Verdict {
         }
     }
     if let Some(a) = &f.array {
-        if a.stride == Some(0) {
-            return Verdict::Unspecified("stride = 0".into());
+        // stride 0 on a contiguous array is simply "stride below the element width" (R3);
+        // on a list array (where no minimum is documented) it is left open
+        if a.stride == Some(0) && f.ranges.len() != 1 {
+            return Verdict::Unspecified("stride = 0 on a list array".into());
         }
     }
     match &f.ty {
